@@ -73,7 +73,7 @@ from __future__ import annotations
 import io
 import itertools
 
-from .. import defs, impl, refimpl, s3_c09, u2_c09, v4_c09, v5_c09, v8_c09, v9_c09
+from .. import defs, impl, refimpl, s3_c09, u2_c09, v4_c09, v5_c09, v8_c09, v9_c09, v9_c09call
 from ..common import Result, mkrng
 from ..structprops import Engine, load, real_parse, rand_bytes, has_eof
 
@@ -393,6 +393,9 @@ def run(env) -> Result:
     v8_c09.run_sentinel(env, eng, res, mkrng(env["seed"], "c09-sentinel"))
     v9_c09.run_files(env, eng, res, mkrng(env["seed"], "c09-files"))
     v9_c09.run_toend(env, eng, res, mkrng(env["seed"], "c09-toend"))
+    # the route of the class call (read / reads / shortcut / default / value constructor; unions: rebuilt or left as parsed)
+    # against the decision model CstructModel/Call.lean (theorems: Proofs/C09Call.lean)
+    v9_c09call.run(env, res, mkrng(env["seed"], "c09-callroute"))
     return res
 
 
